@@ -868,6 +868,10 @@ fn dump_crate<'tcx>(tcx: TyCtxt<'tcx>, name: &str, nonce: &str) -> J {
                 }
                 let mut its = Vec::new();
                 for ai in tcx.associated_items(did).in_definition_order() {
+                    // the synthetic associated types of an `async fn` / `-> impl Trait` trait method have no name
+                    if ai.is_impl_trait_in_trait() {
+                        continue;
+                    }
                     its.push(J::s(ai.name().as_str()));
                 }
                 i.set("items", J::arr(its));
